@@ -30,6 +30,7 @@ FIXREV = {
     "fixrev-model-at-maturity": ("C14", ["C14"], "reverse of the fix: model evaluated at maturity in the all-steps branch (nan gradient through BlackScholes)"),
     "fixrev-negative-zero": ("C18", ["C18"], "reverse of the fix: time_to_maturity / volatility = -0.0 gives infinities of the wrong sign (negative European price at maturity)"),
     "fixrev-setattr-shadow": ("C12", ["C12"], "reverse of the fix: derivative.<name> = primary leaves a plain attribute that shadows the registry and goes stale"),
+    "fixrev-cash-precision": ("C06", ["C06"], "reverse of the fix: default cash search in single precision at levels >= 16 runs into the iteration limit (RuntimeError)"),
     "fixrev-cir-zero-variance": ("C11", ["C11"], "reverse of the fix: generate_cir / CIRRate NaN when the step has no variance (sigma = 0)"),
 }
 EXTRA = {"C03-B-stale-prev-output": ["C03", "C16"], "C16-B-prev-output-not-rezeroed": ["C16", "C03"], "C04-A-es-ties-at-quantile": ["C04", "C05"],
